@@ -1,5 +1,5 @@
 #!/bin/bash
-# usage: bin/try_mutant.sh <CHECK-ID> <worktree>   -> runs the check against the seeded change via overlay replace
+# usage: bin/try_mutant.sh <CHECK-ID> <worktree> [n]  -> runs the check against the seeded change via overlay replace
 eval $(/verif/bin/mutant_replace.sh "$2")
 echo "VERIF_REPLACE=$VERIF_REPLACE"
-cd /verif && ./check "$1" quick 2>&1 | grep "VIOLATION\|tier=\|HARNESS" | head -${3:-4} | cut -c1-260
+cd /verif && ./check "$1" quick 2>&1 | grep "^VIOLATION\|^$1 tier=\|^HARNESS" | head -${3:-4} | cut -c1-260
